@@ -212,6 +212,39 @@ IGNORE_SOURCES = [
     "y = (7000 +  # pyrefact: ignore\n     7001)\ny = 7000 + 7001\n",
 ]
 IGNORE_PATTERNS = [("x = 7000", "x = 0"), ("f({{a}})", "g({{a}})"), ("{{a}} + {{b}}", "{{b}} + {{a}}"), ("7000", "K")]
+# matches that span several physical lines, with the annotation on every line in turn (first / interior / last line of
+# the match, a line of a nested match, a line outside every match)
+IGNORE_BASES = [
+    ("y = f(\n    7000,\n    7001,\n)\nz = f(7001, 7000)\n",
+     [("f({{a}}, {{b}})", "g({{b}}, {{a}})"), ("{{t}} = f({{a}}, {{b}})", "{{t}} = h({{a}})"), ("7000", "K")]),
+    ("if c:\n    x = 7000\n    y = 7001\nz = 7000\n",
+     [("if {{c}}:\n    {{a}}\n    {{b}}", "if {{c}}:\n    {{b}}\n    {{a}}"), ("x = {{v}}\ny = {{w}}", "y = {{w}}\nx = {{v}}"),
+      ("{{t}} = 7000", "{{t}} = 0")]),
+    ("def g(c):\n    for i in c:\n        w = f(i,\n              7000)\n    return [\n        7000,\n        7001,\n    ]\n",
+     [("f({{a}}, {{b}})", "g({{b}}, {{a}})"), ("[{{a}}, {{b}}]", "[{{b}}, {{a}}]"), ("return {{e}}", "return ({{e}})"),
+      ("for {{i}} in {{c}}:\n    {{a}}", "for {{i}} in {{c}}:\n    {{a}}\n    pass")]),
+    ("k = (7000 +\n     7001 +\n     7000)\nm = 7000 + 7001\n",
+     [("{{a}} + {{b}}", "{{b}} + {{a}}"), ("{{t}} = {{v}}", "{{t}} = ({{v}})"), ("7001", "K")]),
+    ("class A:\n    x = 7000\n\n    def m(self):\n        return f(self.x,\n                 7001)\n",
+     [("x = {{v}}", "x = {{v}} + 1"), ("f({{a}}, {{b}})", "g({{b}}, {{a}})"), ("return {{e}}", "return ({{e}})")]),
+]
+
+
+def ignore_variants():
+    out = []
+    for base, patterns in IGNORE_BASES:
+        lines = base.split("\n")
+        for i, line in enumerate(lines):
+            if not line.strip():
+                continue
+            for spelling in ("  # pyrefact: ignore", " #pyrefact:ignore"):
+                src = "\n".join(lines[:i] + [line + spelling] + lines[i + 1:])
+                for p_, r_ in patterns:
+                    out.append((p_, r_, src))
+                if spelling.startswith("  "):
+                    continue
+                break
+    return out
 
 
 def ob_ignore(pattern, repl, source):
@@ -259,6 +292,7 @@ def obligations(tier, seed):
            for n in COUNT_SOURCES]
     jobs = [("sub", p, r, s) for (p, r) in SUB_PATTERNS for s in SUB_SOURCES]
     jobs += [("ignore", p, r, s) for (p, r) in IGNORE_PATTERNS for s in IGNORE_SOURCES]
+    jobs += [("ignore", p, r, s) for (p, r, s) in ignore_variants()]
     B = 8
     for i in range(0, len(jobs), B):
         obs.append(Obligation("sub-batch/%d" % (i // B), ob_batch, {"batch": jobs[i:i + B]}, hard_timeout=600,
